@@ -75,6 +75,27 @@ def _corr_chunk(args):
         dis += d
     return tot, dis
 
+def _nextlife_chunk(args):
+    """every call of the real `Next.do_translate` vs the model's state machine (tools/impl_theory.check_next_life)"""
+    seed, cases = args
+    tot = {"next_calls": 0}
+    acts = {}
+    dis = []
+    for forms, atoms in cases:
+        text = oracles.witness_program(forms, atoms, "tel")
+        try:
+            st, d = impl_theory.check_next_life(text, 3, MODEL)
+        except BaseException as e:  # noqa
+            if isinstance(e, KeyboardInterrupt):
+                raise
+            st, d = {}, [{"layer": "L4-next-life", "text": text, "what": "exception: {}: {}".format(tl.classify_exc(e), str(e)[:200])}]
+        tot["next_calls"] += st.get("next_calls", 0)
+        for k, v in st.get("actions", {}).items():
+            acts[k] = acts.get(k, 0) + v
+        dis += d
+    tot["actions"] = acts
+    return tot, dis
+
 def correspondence(ctx):
     n = 60 if ctx.tier == "quick" else 1200
     H = 3
@@ -98,6 +119,17 @@ def correspondence(ctx):
             count(f)
     tot["operator_histogram"] = ops
     tot["sample"] = {"program": oracles.witness_program(cases[-1][0], ATOMS, "tel"), "horizon": H}
+    # the life cycle of next placeholders: the cases that contain a next operator (a sample in the quick tier)
+    nl = [c for c in cases if "next" in str(c[0]) or "unt" in str(c[0]) or "rel" in str(c[0]) or "evF" in str(c[0]) or "alF" in str(c[0])]
+    if ctx.tier == "quick":
+        nl = random.Random(ctx.seed).sample(nl, min(len(nl), 160))
+    life = {"next_calls": 0, "actions": {}}
+    for st, d in par.pmap(_nextlife_chunk, [(ctx.seed + j, c) for j, c in enumerate(par.chunks(nl, ctx.jobs))], ctx.jobs):
+        life["next_calls"] += st["next_calls"]
+        for k, v in st["actions"].items():
+            life["actions"][k] = life["actions"].get(k, 0) + v
+        dis += d
+    tot["next_placeholder_life"] = life
     return tot, dis
 
 def corpus_cases():
